@@ -6,6 +6,7 @@ import (
 	"strings"
 	"testing"
 
+	"github.com/KevoDB/kevo/pkg/wal"
 	"github.com/KevoDB/kevo/zsim/kit"
 	"github.com/KevoDB/kevo/zsim/simos"
 	"github.com/KevoDB/kevo/zsim/simrt"
@@ -34,6 +35,11 @@ type stepExtent struct {
 }
 
 // parseRecords returns the start offsets of the physical records of a log file.
+// entryID identifies a log entry by everything it carries.
+func entryID(en *wal.Entry) string {
+	return fmt.Sprintf("%d|%d|%d|%s|%s", en.SequenceNumber, en.Type, len(en.Key), en.Key, en.Value)
+}
+
 func parseRecords(data []byte) (starts []int, lens []int) {
 	off := 0
 	for off+7 <= len(data) {
@@ -147,6 +153,18 @@ func runC10(t *testing.T, c DamageCase) *kit.Result {
 				res.V = v
 			}
 		}
+		// every entry of the undamaged log directory, as the log's own replay delivers it
+		var appended map[string]bool
+		kit.OnNode(fs, "n1", "replay-base", func() {
+			set := map[string]bool{}
+			if _, err := wal.ReplayWALDir(F[:strings.LastIndex(F, "/")], func(en *wal.Entry) error {
+				set[entryID(en)] = true
+				return nil
+			}); err == nil {
+				appended = set
+			}
+		})
+		simrt.KillTagged("n1", fs.Node("n1").Gen)
 		// recoverImage mounts img, opens the engine and hands the observed state to judge;
 		// with post=true it then appends writes, restarts and checks they are all there.
 		recoverImage := func(img *simos.Image, what string, post bool, judge func(obs map[string][]byte) *kit.Violation) {
@@ -165,6 +183,21 @@ func runC10(t *testing.T, c DamageCase) *kit.Result {
 								older[p] = string(b)
 							}
 						}
+					}
+				}
+				// what replaying the damaged directory delivers, entry by entry: nothing
+				// that was not appended (type, key, value and sequence number)
+				if appended != nil {
+					var bad string
+					wal.ReplayWALDir(walDir, func(en *wal.Entry) error {
+						if bad == "" && !appended[entryID(en)] {
+							bad = fmt.Sprintf("type %d key %s value %s sequence %d", en.Type, kit.Q(en.Key), kit.Q(en.Value), en.SequenceNumber)
+						}
+						return nil
+					})
+					if bad != "" {
+						fail(&kit.Violation{Kind: "replay-fabricated", Signature: "replay-delivers-entry-never-appended:" + strings.SplitN(what, " ", 2)[0], Detail: fmt.Sprintf("%s: replaying the log directory delivers an entry that was never appended: %s", what, bad)})
+						return
 					}
 				}
 				e, err := kit.OpenEngine("n1", c.Knobs)
@@ -317,7 +350,20 @@ func runC10(t *testing.T, c DamageCase) *kit.Result {
 		// ---- single-byte corruptions
 		var positions []int
 		typeByte := map[int]bool{} // damage to a record's type byte re-frames what follows: always followed by further writes and a second recovery
+		// at most 18 records: the first and last four and a random ten in between
+		chosen := map[int]bool{}
+		if len(starts) > 18 {
+			for i := 0; i < 4; i++ {
+				chosen[i], chosen[len(starts)-1-i] = true, true
+			}
+			for len(chosen) < 18 {
+				chosen[prng.Intn(len(starts))] = true
+			}
+		}
 		for i, s := range starts {
+			if len(starts) > 18 && !chosen[i] {
+				continue
+			}
 			typeByte[s+6] = true
 			for b := 0; b < 7; b++ {
 				positions = append(positions, s+b)
@@ -325,9 +371,6 @@ func runC10(t *testing.T, c DamageCase) *kit.Result {
 			for j := 0; j < 2 && lens[i] > 7; j++ {
 				positions = append(positions, s+7+prng.Intn(lens[i]-7))
 			}
-		}
-		for len(positions) > 160 {
-			positions = positions[:160]
 		}
 		for pi, p := range positions {
 			if res.V != nil {
@@ -430,6 +473,22 @@ func TestC10(t *testing.T) {
 					c.Ops = append(c.Ops, kit.Op{K: "put", Key: ks.Pick(r), Tag: tag, Len: r.Range(900, 1100), Fill: fill})
 				}
 			}
+			if r.Bool(0.08) {
+				// two or three entries of several fragments each, the later ones at
+				// least as long: whatever recovery keeps of a damaged one must not
+				// be completed by the fragments of the next
+				var tag uint32 = 7000
+				n := r.Range(40000, 90000)
+				for i, k := 0, r.Range(2, 3); i < k; i++ {
+					tag++
+					c.Ops = append(c.Ops, kit.Op{K: "put", Key: ks.Pick(r), Tag: tag, Len: n})
+					n += r.Range(0, 9000)
+					if r.Bool(0.4) {
+						tag++
+						c.Ops = append(c.Ops, kit.Op{K: "put", Key: ks.Pick(r), Tag: tag, Len: r.Range(1, 40)})
+					}
+				}
+			}
 			// end with writes so that the newest file is not empty (sometimes
 			// with an entry of several fragments)
 			tail := kit.GenProgram(r, kit.ProgOpts{Keys: ks, MinOps: 1, MaxOps: 4, WTxn: 8, WBatch: 8, Big: r.Bool(0.25)})
@@ -469,6 +528,6 @@ func TestC10(t *testing.T) {
 			return out
 		},
 		Strip: func(c DamageCase) any { d := c; d.Sched = kit.Sched{}; return d },
-		Rule:  "generated logs (engine, synchronous logging, rotation only at explicit flushes so every step's byte extent in the newest file is known); truncation at every byte (files up to all_bytes) or every record boundary +-8 plus 64 random offsets: the reopened state must be exactly the state after the steps wholly before the cut; single-byte corruption of all 7 header bytes of every record and 2 payload bytes per record x {bit flip, 0x00, 0xff, +1}: opening succeeds and every key reads its value after the undamaged prefix or a value written by a later entry; after every open the other (undamaged) log files must still be in place, byte for byte; a sample of images then takes 1-5 further acknowledged writes and a clean or crash restart, after which exactly those writes are added. evaluations = damaged images recovered",
+		Rule:  "generated logs (engine, synchronous logging, rotation only at explicit flushes so every step's byte extent in the newest file is known); truncation at every byte (files up to all_bytes) or every record boundary +-8 plus 64 random offsets: the reopened state must be exactly the state after the steps wholly before the cut; single-byte corruption of all 7 header bytes and 2 payload bytes of every record (long logs: of the first and last four records and ten random ones) x {bit flip, 0x00, 0xff, +1}: replaying the damaged directory (wal.ReplayWALDir) delivers only entries that the undamaged directory delivers too (same type, key, value, sequence number), opening succeeds and every key reads its value after the undamaged prefix or a value written by a later entry; after every open the other (undamaged) log files must still be in place, byte for byte; a sample of images then takes 1-5 further acknowledged writes and a clean or crash restart, after which exactly those writes are added. evaluations = damaged images recovered",
 	})
 }
